@@ -213,6 +213,54 @@ def run_contracts(col, cls, p, g, tag):
         return True, None
     col.check(f"{cls}:near-ends", near_ends, inputs=inp)
 
+    def trimming():
+        """"infinity represented by a large finite number when trimming is on": trimming replaces infinite values and nothing else."""
+        if cls not in ("BeckeRTransform", "KnowlesRTransform", "HandyRTransform", "MultiExpRTransform", "HandyModRTransform"):
+            return True, None
+        on, off = make(cls, p, True), make(cls, p, False)
+        lo, hi = on.domain
+        ks = np.arange(2.0, 54.0, 3.0)
+        end = lo if cls == "MultiExpRTransform" else hi
+        pts = end - (end - (lo + hi) / 2) * 2.0 ** -ks
+        for which in ("transform", "deriv", "deriv2", "deriv3"):
+            with np.errstate(all="ignore"):
+                a = np.asarray(getattr(on, which)(pts), dtype=float)
+                b = np.asarray(getattr(off, which)(pts), dtype=float)
+            fin = np.isfinite(b)
+            if not np.array_equal(a[fin], b[fin]):
+                i = int(np.argmax(a[fin] != b[fin]))
+                return False, f"{which}({pts[fin][i]!r}) = {a[fin][i]!r} with trim_inf, {b[fin][i]!r} without: a finite value was changed"
+            if np.any(np.isnan(a)) or np.any(np.isinf(a) & fin):
+                return False, f"{which}: non-finite value with trim_inf at an interior point"
+        return True, None
+    col.check(f"{cls}:trimming-only-replaces-infinities", trimming, inputs=inp)
+
+    def lazy_scale():
+        """b-scaled maps constructed without b: the scale is taken from the first grid that is transformed and kept afterwards; every clause
+        holds for that b."""
+        if cls not in ("LinearInfiniteRTransform", "ExpRTransform", "PowerRTransform"):
+            return True, None
+        tfl = getattr(rt, cls)(p["rmin"], p["rmax"])
+        first = np.sort(g.uniform(0.1, p["b"], 6))
+        r1 = np.asarray(tfl.transform(first), dtype=float)
+        if tfl.b is None or not np.isclose(float(tfl.b), float(first.max()), rtol=1e-14):
+            return False, f"scale after the first transformed grid is {tfl.b!r}, the largest grid value is {first.max()!r}"
+        b0 = float(tfl.b)
+        ref = getattr(rt, cls)(p["rmin"], p["rmax"], b0)
+        other = np.sort(g.uniform(0.1, 3 * p["b"], 5))
+        for which, arg in (("transform", other), ("deriv", other), ("deriv2", other), ("deriv3", other), ("inverse", np.asarray(ref.transform(other))),
+                           ("deriv_inverse", np.asarray(ref.transform(other)))):
+            a = np.asarray(getattr(tfl, which)(arg), dtype=float)
+            bb = np.asarray(getattr(ref, which)(arg), dtype=float)
+            if float(tfl.b) != b0:
+                return False, f"the scale changed from {b0!r} to {tfl.b!r} in a later call of {which}"
+            if not np.allclose(a, bb, rtol=1e-13, atol=0):
+                return False, f"{which} with the lazily set scale differs from the same transform constructed with b = {b0!r}"
+        if not np.allclose(r1, ref.transform(first), rtol=1e-13) or not np.isclose(r1[-1], p["rmax"], rtol=1e-12):
+            return False, "first transformed grid does not end at rmax"
+        return True, None
+    col.check(f"{cls}:lazy-scale", lazy_scale, inputs=inp)
+
     def scalar_vs_array():
         if cls == "HyperbolicRTransform":
             return True, None
